@@ -1,6 +1,10 @@
 package netsim
 
 import (
+	"errors"
+	"reflect"
+	"strings"
+
 	"github.com/insomniacslk/dhcp/dhcpv4"
 	"github.com/insomniacslk/dhcp/dhcpv6"
 
@@ -48,6 +52,7 @@ type Invocation struct {
 	DG      int64
 	At      int64 // simulated time when the handler returned
 	Step    int64
+	Args    string
 }
 
 var registered bool
@@ -69,6 +74,17 @@ func registerPlugins() {
 	}
 }
 
+func ptrOf(x interface{}) uintptr {
+	if x == nil {
+		return 0
+	}
+	v := reflect.ValueOf(x)
+	if v.Kind() == reflect.Ptr {
+		return v.Pointer()
+	}
+	return 0
+}
+
 // observe wraps a plugin so that every handler invocation is logged; behaviour is unchanged.
 func observe(p *plugins.Plugin, isBuiltin bool) *plugins.Plugin {
 	q := &plugins.Plugin{Name: p.Name}
@@ -81,8 +97,12 @@ func observe(p *plugins.Plugin, isBuiltin bool) *plugins.Plugin {
 				return h, err
 			}
 			return func(req, resp *dhcpv4.DHCPv4) (*dhcpv4.DHCPv4, bool) {
+				inv := &Invocation{Plugin: name, Args: strings.Join(args, " "), Builtin: isBuiltin, Index: -1, Lease: -1, ReqPtr: ptrOf(req), InPtr: ptrOf(resp)}
+				if resp != nil {
+					inv.Trail = trail4(resp)
+				}
 				r, stop := h(req, resp)
-				inv := &Invocation{Plugin: name, RespNil: r == nil, Stop: stop, Builtin: isBuiltin, Index: -1, Lease: -1}
+				inv.RespNil, inv.Stop, inv.OutPtr = r == nil, stop, ptrOf(r)
 				if r != nil {
 					inv.Yiaddr = append([]byte(nil), r.YourIPAddr...)
 					inv.Lease = int64(r.IPAddressLeaseTime(-1))
@@ -101,8 +121,13 @@ func observe(p *plugins.Plugin, isBuiltin bool) *plugins.Plugin {
 				return h, err
 			}
 			return func(req, resp dhcpv6.DHCPv6) (dhcpv6.DHCPv6, bool) {
+				inv := &Invocation{Plugin: name, Args: strings.Join(args, " "), V6: true, Builtin: isBuiltin, Index: -1, Lease: -1, ReqPtr: ptrOf(req), InPtr: ptrOf(resp)}
+				if resp != nil {
+					inv.Trail = trail6(resp)
+				}
 				r, stop := h(req, resp)
-				simrt.UserLog(&Invocation{Plugin: name, V6: true, RespNil: r == nil, Stop: stop, Builtin: isBuiltin, Index: -1})
+				inv.RespNil, inv.Stop, inv.OutPtr = r == nil, stop, ptrOf(r)
+				simrt.UserLog(inv)
 				return r, stop
 			}, nil
 		}
@@ -110,4 +135,114 @@ func observe(p *plugins.Plugin, isBuiltin bool) *plugins.Plugin {
 	return q
 }
 
-func syntheticPlugins() []*plugins.Plugin { return nil }
+// ---------------------------------------------------------------------------
+// synthetic plugins (registered through plugins.RegisterPlugin like any other)
+//
+//	zz_syn  <id> <behaviour>   supports DHCPv4 and DHCPv6
+//	zz_syn4 <id> <behaviour>   DHCPv4 only
+//	zz_syn6 <id> <behaviour>   DHCPv6 only
+//
+// behaviours: pass | modify | replace | stop | stopnil | nak | failsetup | nilhandler
+// "modify"/"replace"/"stop" append the tag <id> to a private trail option so the oracle can see
+// which response object reached the wire.
+
+const trailOpt4 = dhcpv4.GenericOptionCode(224)
+const trailOpt6 = dhcpv6.OptionCode(65001)
+
+func trail4(m *dhcpv4.DHCPv4) string { return string(m.Options.Get(trailOpt4)) }
+
+func trail6(m dhcpv6.DHCPv6) string {
+	for _, o := range m.GetOption(trailOpt6) {
+		return string(o.ToBytes())
+	}
+	return ""
+}
+
+func addTrail4(m *dhcpv4.DHCPv4, id string) {
+	m.UpdateOption(dhcpv4.OptGeneric(trailOpt4, []byte(trail4(m)+id+",")))
+}
+
+func addTrail6(m dhcpv6.DHCPv6, id string) {
+	m.UpdateOption(&dhcpv6.OptionGeneric{OptionCode: trailOpt6, OptionData: []byte(trail6(m) + id + ",")})
+}
+
+func synSetup4(args ...string) (handler.Handler4, error) {
+	if len(args) < 2 {
+		return nil, errors.New("zz_syn: need id and behaviour")
+	}
+	id, beh := args[0], args[1]
+	switch beh {
+	case "failsetup":
+		return nil, errors.New("zz_syn: setup failure requested")
+	case "nilhandler":
+		return nil, nil
+	}
+	return func(req, resp *dhcpv4.DHCPv4) (*dhcpv4.DHCPv4, bool) {
+		switch beh {
+		case "modify":
+			addTrail4(resp, id)
+			return resp, false
+		case "replace":
+			n := *resp
+			n.Options = make(dhcpv4.Options)
+			for k, v := range resp.Options {
+				n.Options[k] = v
+			}
+			addTrail4(&n, id)
+			return &n, false
+		case "stop":
+			addTrail4(resp, id)
+			return resp, true
+		case "stopnil":
+			return nil, true
+		case "nak":
+			resp.UpdateOption(dhcpv4.OptMessageType(dhcpv4.MessageTypeNak))
+			addTrail4(resp, id)
+			return resp, false
+		}
+		return resp, false
+	}, nil
+}
+
+func synSetup6(args ...string) (handler.Handler6, error) {
+	if len(args) < 2 {
+		return nil, errors.New("zz_syn: need id and behaviour")
+	}
+	id, beh := args[0], args[1]
+	switch beh {
+	case "failsetup":
+		return nil, errors.New("zz_syn: setup failure requested")
+	case "nilhandler":
+		return nil, nil
+	}
+	return func(req, resp dhcpv6.DHCPv6) (dhcpv6.DHCPv6, bool) {
+		switch beh {
+		case "modify", "nak":
+			addTrail6(resp, id)
+			return resp, false
+		case "replace":
+			if m, ok := resp.(*dhcpv6.Message); ok {
+				n := *m
+				n.Options = dhcpv6.MessageOptions{Options: append(dhcpv6.Options(nil), m.Options.Options...)}
+				addTrail6(&n, id)
+				return &n, false
+			}
+			addTrail6(resp, id)
+			return resp, false
+		case "stop":
+			addTrail6(resp, id)
+			return resp, true
+		case "stopnil":
+			return nil, true
+		}
+		return resp, false
+	}, nil
+}
+
+func syntheticPlugins() []*plugins.Plugin {
+	return []*plugins.Plugin{
+		observe(&plugins.Plugin{Name: "zz_syn", Setup4: synSetup4, Setup6: synSetup6}, false),
+		observe(&plugins.Plugin{Name: "zz_syn4", Setup4: synSetup4}, false),
+		observe(&plugins.Plugin{Name: "zz_syn6", Setup6: synSetup6}, false),
+	}
+}
